@@ -30,8 +30,12 @@ Definition out_eqb (a b : out) : bool :=
 (* outputs are compared per channel: requests and returns, socket traffic, events *)
 Definition chan (o : out) : N :=
   match o with OHttp _ _ _ => 0 | OWsConnect _ _ | OWsSend _ _ | OWsClose _ => 1 | OEv _ => 2 | ORet _ _ => 3 | OOutOfFuel => 4 end.
+(* returns of different application calls within one step are compared as a set: which of two calls that end in the same step
+   (two time-outs with the same deadline) returns first is a scheduling accident, and each call is its own thread/task *)
+Definition okey (o : out) : N * N := match o with ORet c _ => (chan o, c) | _ => (chan o, 0) end.
+Definition key_le (a b : N * N) : bool := (fst a <? fst b) || ((fst a =? fst b) && (snd a <=? snd b)).
 Fixpoint insert_o (o : out) (l : list out) : list out :=
-  match l with [] => [o] | x :: r => if chan x <=? chan o then x :: insert_o o r else o :: l end.
+  match l with [] => [o] | x :: r => if key_le (okey x) (okey o) then x :: insert_o o r else o :: l end.
 Definition canon (l : list out) : list out := fold_left (fun acc o => insert_o o acc) l [].
 Definition outs_eqb (a b : list out) : bool := leqb out_eqb (canon a) (canon b).
 
